@@ -27,7 +27,9 @@ type Stmt struct {
 	// group
 	Prefix string
 	Body   []*Stmt
-	Spare  int // spare capacity of the handler slices handed to rux
+	Spare  int   // spare capacity of the handler slices handed to rux
+	Reuse  *Stmt // non-nil: this group is given the very same handler slice (same backing array) as that earlier group
+	funcs  []rux.HandlerFunc
 
 	Route *rux.Route // filled by Apply (nil for Any)
 }
@@ -135,7 +137,12 @@ func (p *Program) Apply(w *World) *rux.Router {
 				r.NotAllowed(w.funcs(s.Hs, s.Spare)...)
 			case "group":
 				body := s.Body
-				r.Group(s.Prefix, func() { run(body) }, w.funcs(s.Hs, s.Spare)...)
+				if s.Reuse != nil && s.Reuse.funcs != nil {
+					s.funcs = s.Reuse.funcs // the caller keeps one slice and passes it to several groups
+				} else {
+					s.funcs = w.funcs(s.Hs, s.Spare)
+				}
+				r.Group(s.Prefix, func() { run(body) }, s.funcs...)
 			case "controller":
 				body := s.Body
 				r.Controller(s.Prefix, ctl(func() { run(body) }), w.funcs(s.Hs, s.Spare)...)
@@ -194,6 +201,54 @@ type Res struct {
 func (c *Res) Index(ctx *rux.Context)  { c.w.Handler(c.index)(ctx) }
 func (c *Res) Show(ctx *rux.Context)   { c.w.Handler(c.show)(ctx) }
 func (c *Res) Delete(ctx *rux.Context) { c.w.Handler(c.del)(ctx) }
+
+// Clone copies a statement tree (scripts are shared, they are immutable); slice-reuse links are remapped to
+// the copies.
+func Clone(ss []*Stmt) []*Stmt {
+	m := map[*Stmt]*Stmt{}
+	var cp func(ss []*Stmt) []*Stmt
+	cp = func(ss []*Stmt) []*Stmt {
+		out := make([]*Stmt, len(ss))
+		for i, s := range ss {
+			c := *s
+			c.Route, c.funcs = nil, nil
+			m[s] = &c
+			c.Body = cp(s.Body)
+			out[i] = &c
+		}
+		return out
+	}
+	out := cp(ss)
+	for _, c := range m {
+		if c.Reuse != nil {
+			c.Reuse = m[c.Reuse]
+		}
+	}
+	return out
+}
+
+// Unlink removes slice-reuse links that point to a statement which is no longer part of the tree.
+func Unlink(ss []*Stmt) {
+	present := map[*Stmt]bool{}
+	var walk func(ss []*Stmt)
+	walk = func(ss []*Stmt) {
+		for _, s := range ss {
+			present[s] = true
+			walk(s.Body)
+		}
+	}
+	walk(ss)
+	var fix func(ss []*Stmt)
+	fix = func(ss []*Stmt) {
+		for _, s := range ss {
+			if s.Reuse != nil && !present[s.Reuse] {
+				s.Reuse = nil
+			}
+			fix(s.Body)
+		}
+	}
+	fix(ss)
+}
 
 // MRoute is a route of the program model.
 type MRoute struct {
@@ -289,6 +344,22 @@ func (pm *PModel) EnableSub() {
 		req := &http.Request{Method: method, URL: &url.URL{Path: path}, Header: http.Header{}, Proto: "HTTP/1.1", ProtoMajor: 1, ProtoMinor: 1}
 		out, _ := ModelDispatch(chain, inner, NewRec(), req, ps, false)
 		return SubText(out)
+	}
+}
+
+// EnableForward lets the model predict an internal forward (Router.HandleContext): the context is reset and
+// dispatched again for the new path on the same writer; afterwards the forwarding chain is finished.
+func (pm *PModel) EnableForward() {
+	pm.Hooks.Forward = func(m *MCtx, path string) {
+		chain, ps, _ := pm.Expect(m.Request.Method, path)
+		inner := NewMCtx(chain, m.W, m.Request, ps, m.Tr)
+		inner.NoAbt = m.NoAbt
+		inner.resp = m.W // Reset() restores c.Resp
+		if v := ModelRun(inner, pm.Hooks); v != nil {
+			panic(v)
+		}
+		// the forwarding handler goes on with the very same context: its chain is finished, state is the inner one
+		m.P, m.Aborted, m.data, m.NErr, m.Ps, m.resp = len(m.Chain), inner.Aborted, inner.data, inner.NErr, inner.Ps, inner.resp
 	}
 }
 
@@ -510,9 +581,11 @@ func (g *progGen) body(prefix string, nmw int, depth int) []*Stmt {
 			seg := rapid.StringMatching(`[a-c]{1,2}`).Draw(t, "seg")
 			path := "/" + seg
 			if g.cfg.Dynamic && rapid.IntRange(0, 3).Draw(t, "dyn") == 0 {
-				path = rapid.SampledFrom([]string{"/" + seg + "/{id}", "/{id}/" + seg, "/" + seg + "[/{id}]"}).Draw(t, "dynPath")
+				path = rapid.SampledFrom([]string{"/" + seg + "/{id}", "/{id}/" + seg, "/" + seg + "[/{id}]", "/" + seg + "[.html]", "/" + seg + "/x[/y]"}).Draw(t, "dynPath")
 			}
-			if g.cfg.EmptyPaths && !g.opts.Strict && rapid.IntRange(0, 7).Draw(t, "emptyPath") == 0 {
+			if g.cfg.EmptyPaths && rapid.IntRange(0, 7).Draw(t, "emptyPath") == 0 {
+				// the index route of a group: "" and "/" both mean "/" (N("") = "/"), so inside Group("/a") it is
+				// N("/a" ++ "/"): "/a" by default and "/a/" under StrictLastSlash
 				path = rapid.SampledFrom([]string{"", "/"}).Draw(t, "empty")
 			}
 			written := path
@@ -577,7 +650,18 @@ func (g *progGen) body(prefix string, nmw int, depth int) []*Stmt {
 				hs = nil
 			}
 			s := &Stmt{Kind: "group", Prefix: written, Hs: hs, Spare: rapid.IntRange(0, 3).Draw(t, "spare")}
-			if g.cfg.Controllers {
+			// a caller-held middleware slice passed to several sibling groups
+			if rapid.IntRange(0, 4).Draw(t, "reuseSlice") == 0 {
+				for _, prev := range out {
+					if prev.Kind == "group" && len(prev.Hs) > 0 && nmw+len(prev.Hs) <= 40 {
+						s.Hs, s.Reuse = prev.Hs, prev
+						if prev.Reuse != nil {
+							s.Reuse = prev.Reuse
+						}
+					}
+				}
+			}
+			if g.cfg.Controllers && s.Reuse == nil {
 				switch rapid.IntRange(0, 7).Draw(t, "groupKind") {
 				case 0, 1:
 					s.Kind = "controller"
